@@ -327,7 +327,7 @@ class Check:
         self.cov["distinct_nontrivial"] = len(self._distinct)
         b = self.build
         cov = self.cov
-        if b is not None:
+        if b is not None and b.theorems:
             cov["obligations"] = len(b.theorems)
             cov["discharged"] = len(b.theorems) if b.ok else 0
             cov["checker_cmd"] = "cd /verif/coq && make -f Makefile.coq -j16 %s/Properties.vo  (coqc 8.16.1 full .vo build; coqchk -o in thorough tier)" % self.pid
@@ -336,9 +336,7 @@ class Check:
             cov["generated_from_source"] = b.generated
             cov["coq_build_wall_s"] = round(b.wall, 1)
         else:
-            cov["obligations"] = 0
-            cov["discharged"] = 0
-            cov["checker_cmd"] = "none"
+            cov["explanation"] = "no Coq obligations are attached to this check yet"
         cov["trusted_base"] = self.trust
         cov["input_distribution"] = self.dist
         cov["glue_freshness"] = self.freshness
